@@ -185,7 +185,7 @@ def edge_ok(e, n):
 # ------------------------------------------------------------------------------------------------
 # random_hypergraph / random_uniform_hypergraph
 
-def check_random(ctx, drv, case):
+def check_random(ctx, drv, case, secs=8.0):
     from hypergraphx.generation.random import random_hypergraph, random_uniform_hypergraph
     n, sizes, counts, seed, uniform = case["n"], case["sizes"], case["counts"], case["seed"], case["uniform"]
     req = dict(zip(sizes, counts))
@@ -200,13 +200,12 @@ def check_random(ctx, drv, case):
 
     ambient(*case["ambient"])
     with recorder() as rec:
-        st, h = limited(call)
+        st, h = limited(call, secs)
     log = rec.log
     admissible = all(c <= 0 or s <= n for s, c in req.items())
     key = ("random", n, tuple(sizes), tuple(counts), seed, uniform)
     if st == "timeout":
-        ctx.violation(case, "random_hypergraph did not return within the time limit")
-        return
+        return "timeout"
     if st == "exc":
         if admissible:
             ctx.violation(case, f"random_hypergraph raised on admissible arguments: {h}")
@@ -232,7 +231,7 @@ def check_random(ctx, drv, case):
     if seed is not None:
         a2 = case["ambient"]
         ambient(a2[0] + 17, a2[1] + 29)
-        st2, h2 = limited(call)
+        st2, h2 = limited(call, secs)
         if st2 != "ok" or observe(h2) != (nodes, edges):
             ctx.violation(case, f"same seed {seed}, different ambient RNG state: second run gives "
                                 f"{observe(h2) if st2 == 'ok' else st2}, first {(nodes, edges)}")
@@ -284,7 +283,7 @@ def gen_random(rng, malformed=False):
 # ------------------------------------------------------------------------------------------------
 # scale_free_hypergraph
 
-def check_scale_free(ctx, drv, case):
+def check_scale_free(ctx, drv, case, secs=8.0):
     from hypergraphx.generation.scale_free import scale_free_hypergraph
     n, sizes, counts, skeys, scales = case["n"], case["sizes"], case["counts"], case["scale_keys"], case["scales"]
     kw = dict(case["kwargs"])
@@ -296,7 +295,7 @@ def check_scale_free(ctx, drv, case):
 
     ambient(*case["ambient"])
     with recorder() as rec:
-        st, h = limited(call, 10.0)
+        st, h = limited(call, secs)
     log = rec.log
     correlated = kw.get("correlated", True)
     target = kw.get("corr_target", None)
@@ -306,8 +305,7 @@ def check_scale_free(ctx, drv, case):
             f"{'none' if target is None else hgxv.enc_num(Fraction(target))} {shuffles} ")
     key = ("sf", n, tuple(sizes), tuple(counts), tuple(skeys), correlated, target, shuffles)
     if st == "timeout":
-        ctx.violation(case, "scale_free_hypergraph did not return within 10 s on a feasible request")
-        return
+        return "timeout"
     if st == "exc":
         if valid:
             ctx.violation(case, f"scale_free_hypergraph raised on admissible arguments"
@@ -403,7 +401,7 @@ def gen_scale_free(rng, malformed=False):
 # ------------------------------------------------------------------------------------------------
 # HOADmodel
 
-def check_hoad(ctx, drv, case):
+def check_hoad(ctx, drv, case, secs=8.0):
     from hypergraphx.generation.activity_driven import HOADmodel
     N, orders, time = case["N"], case["orders"], case["time"]
     acts = [[Fraction(a) for a in v] for v in case["acts16"]]
@@ -412,11 +410,13 @@ def check_hoad(ctx, drv, case):
 
     ambient(*case["ambient"])
     with recorder() as rec:
-        st, T = limited(lambda: HOADmodel(N, apo, time=time))
+        st, T = limited(lambda: HOADmodel(N, apo, time=time), secs)
     log = rec.log
     key = ("hoad", N, tuple(orders), time, repr(case["acts16"]))
+    if st == "timeout":
+        return "timeout"
     if st != "ok":
-        ctx.violation(case, f"HOADmodel did not return a hypergraph: {st} {T}")
+        ctx.violation(case, f"HOADmodel raised on admissible arguments: {T}")
         return
     recs = [(norm(t), tuple(plain(e))) for (t, e) in T.get_edges()]
     for t, e in recs:
@@ -469,7 +469,7 @@ def call_result(arg_after, ret, rank):
     return "A " + show_snap(snapshot(arg_after, rank)) + " R " + ("none" if ret is None else show_snap(snapshot(ret, rank)))
 
 
-def check_add(ctx, drv, case):
+def check_add(ctx, drv, case, secs=8.0):
     from hypergraphx.generation.random import add_random_edge, add_random_edges
     spec = case["hg"]
     rank = rank_of(spec)
@@ -485,7 +485,7 @@ def check_add(ctx, drv, case):
 
     ambient(*case["ambient"])
     with recorder() as rec:
-        st, ret = limited(call)
+        st, ret = limited(call, secs)
     log = rec.log
     order, size, inplace = kw.get("order"), kw.get("size"), kw.get("inplace", True)
     s = size if size is not None else (order + 1 if order is not None else None)
@@ -494,8 +494,7 @@ def check_add(ctx, drv, case):
            else f"addedge {int(inplace)} {opt(order)} {opt(size)} ")
     key = ("add", repr(spec), case["k"], repr(sorted(kw.items(), key=repr)))
     if st == "timeout":
-        ctx.violation(case, "add_random_edge(s) did not return within the time limit on a feasible request")
-        return
+        return "timeout"
     if st == "exc":
         if valid:
             ctx.violation(case, f"add_random_edge(s) raised on admissible arguments: {ret}")
@@ -518,8 +517,8 @@ def check_add(ctx, drv, case):
     if inplace and ret is not None:
         ctx.violation(case, "inplace=True returned an object")
     if not inplace:
-        if ret is None or ret is hg:
-            ctx.violation(case, "inplace=False did not return a new hypergraph")
+        if ret is None:
+            ctx.violation(case, "inplace=False returned nothing")
         if after_arg != before:
             ctx.violation(case, f"inplace=False changed its argument: {before} -> {after_arg}")
     changed = False
@@ -602,7 +601,7 @@ def pfloat(pn, pd):
     return pn / pd
 
 
-def check_shuffle(ctx, drv, case):
+def check_shuffle(ctx, drv, case, secs=8.0):
     import numpy as np
     from hypergraphx.generation.random import random_shuffle, random_shuffle_all_orders
     spec = case["hg"]
@@ -624,7 +623,7 @@ def check_shuffle(ctx, drv, case):
 
     ambient(*case["ambient"])
     with recorder() as rec:
-        st, ret = limited(call)
+        st, ret = limited(call, secs)
     log = rec.log
     order, size, inplace = kw.get("order"), kw.get("size"), kw.get("inplace", True)
     pres = kw.get("preserve_degree", False)
@@ -635,8 +634,7 @@ def check_shuffle(ctx, drv, case):
         cmd = f"shuffle {int(inplace)} {opt(order)} {opt(size)} {pn} {pd} {int(pres)} "
     key = ("shuffle", allo, repr(spec), repr(sorted(kw.items(), key=repr)))
     if st == "timeout":
-        ctx.violation(case, "random_shuffle did not return within the time limit")
-        return
+        return "timeout"
     if st == "exc" or not valid:
         if valid:
             ctx.violation(case, f"random_shuffle{'_all_orders' if allo else ''} raised on admissible arguments: {ret}")
@@ -666,8 +664,8 @@ def check_shuffle(ctx, drv, case):
     if allo and inplace and ret is not hg:
         ctx.violation(case, "random_shuffle_all_orders(inplace=True) did not return its argument")
     if not inplace:
-        if ret is None or ret is hg:
-            ctx.violation(case, "inplace=False did not return a new hypergraph")
+        if ret is None:
+            ctx.violation(case, "inplace=False returned nothing")
         if after_arg != before:
             ctx.violation(case, f"inplace=False changed its argument: {before} -> {after_arg}")
     replaced_some = kept_some = False
@@ -798,8 +796,27 @@ def fixed_cases():
            "valid": True, "p_given": True, "p_float": False, "ambient": amb}
 
 
+def attempt(ctx, drv, case, secs):
+    """the outputs are observed through the public API of the returned objects; if that raises (e.g. a generator left
+    dangling ids behind) the case is a failing input, not a crash of the tool"""
+    try:
+        return CHECKS[case["routine"]](ctx, drv, case, secs)
+    except (RuntimeError, BrokenPipeError):
+        raise  # the Lean driver died: tool failure
+    except Exception as e:  # noqa: BLE001
+        ctx.violation(case, f"{case['routine']}: the returned object / the argument cannot be observed any more: "
+                            f"{type(e).__name__}: {str(e)[:120]}")
+        return None
+
+
 def run_case(ctx, drv, case):
-    CHECKS[case["routine"]](ctx, drv, case)
+    """a call that exceeds the alarm is repeated once with a four times longer limit before it counts as
+    'does not return' (all generated requests are feasible and small: a healthy call takes milliseconds)"""
+    if attempt(ctx, drv, case, 5.0) == "timeout":
+        ctx.count("slow_calls_repeated")
+        if attempt(ctx, drv, case, 20.0) == "timeout":
+            ctx.violation(case, f"{case['routine']}: the call did not return within 20 s on a small feasible request")
+            ctx.extra["nonreturning_call"] = True  # stop the run: every further case may cost 25 s
 
 
 def run(ctx):
@@ -807,15 +824,16 @@ def run(ctx):
     import os
     if not os.environ.get("C14_NOFIXED"):
         for case in fixed_cases():
-            run_case(ctx, drv, case)
-    n = ctx.scale(160, 4000)
+            if not ctx.extra.get("nonreturning_call"):
+                run_case(ctx, drv, case)
+    n = 0 if ctx.extra.get("nonreturning_call") else ctx.scale(6000, 400000)
     routines = ["random", "random", "scale_free", "scale_free", "hoad", "add", "add", "shuffle", "shuffle", "shuffle"]
     for i in range(n):
         r = routines[i % len(routines)]
         malformed = r != "hoad" and ctx.rng.random() < 0.12
         case = GENS[r](ctx.rng, malformed) if r != "hoad" else GENS[r](ctx.rng)
         run_case(ctx, drv, case)
-        if ctx.too_many() or (ctx.time_left() is not None and ctx.time_left() < 8):
+        if ctx.too_many() or ctx.extra.get("nonreturning_call") or (ctx.time_left() is not None and ctx.time_left() < 8):
             break
 
 
